@@ -363,7 +363,7 @@ Section ONCE.
     induction d as [|d IH]; intros g i when w; simpl.
     - destruct (gc_parent _) as [[pg pn]|]; [right; right; reflexivity|]. destruct (sched_local_err_cases g i when w); auto.
     - destruct (gc_parent _) as [[pg pn]|]; [|destruct (sched_local_err_cases g i when w); auto].
-      set (w1 := sched_local g i _ w). assert (E1 := sched_local_err_cases g i (Z.max when (now_of pg w)) w). fold w1 in E1.
+      set (w1 := sched_local g i _ w). assert (E1 := sched_local_err_cases g i (Z.max (Z.max when (now_of pg w)) (now_of 0 w)) w). fold w1 in E1.
       destruct (negb (ok w1)); [destruct E1; auto|].
       match goal with |- context [if ?b then sched_at d T pg pn ?wh ?w2 else _] => assert (E2 : w_err w2 = w_err w1) by (destruct (_ && _); reflexivity) end.
       destruct (g_started _ && negb _).
